@@ -132,9 +132,34 @@ def gen(tier, rng, shard, nshards):
             eigs = [float(x) for x in np.linspace(-2.0, 2.5, n_)]
             node = {"k": "Annot", "name": "SelfAdjoint", "arg": {"k": S.pick(rng, ["Dense", "Dense", "Generic"]), "shape": [n_, n_], "dt": dt if dt != "f4" else "f8",
                                                                  "seed": S.seed(rng), "gen": "herm", "eigs": eigs}}
+        scaled = (not directed) and (not indefinite) and rng.random() < 0.12
+        if scaled:
+            # a lazily scaled operator c * B whose factor B alone is *outside* the function's domain (negative definite, or rotated
+            # out of the right half plane) while c * B is inside: f(c B) is not f(c) f(B) on the principal branch
+            fn = S.pick(rng, ["sqrt", "isqrt", "pow", "pow", "log", "exp", "apply_unary"])
+            n_ = int(rng.integers(1, 7))
+            dts = dt if dt != "f4" else "f8"
+            if rng.random() < 0.5 or dts not in P.CPLX:
+                hermitian = True
+                c = float(S.pick(rng, [-1.0, -1.0, -2.5, -0.5, -1e-3]))
+                eigs = [float(x) / abs(c) for x in np.linspace(-3.0, -0.5, n_)]
+                inner = {"k": "Annot", "name": "SelfAdjoint", "arg": {"k": S.pick(rng, ["Dense", "Dense", "Generic"]), "shape": [n_, n_], "dt": dts,
+                                                                      "seed": S.seed(rng), "gen": "herm", "eigs": eigs}}
+                node = {"k": "Scaled", "c": c, "side": S.pick(rng, ["l", "r"]), "arg": inner}
+                if rng.random() < 0.6:
+                    node = {"k": "Annot", "name": "PSD", "arg": node}
+            else:
+                hermitian = False
+                th = float(S.pick(rng, [0.6, -0.6, 0.9, -0.9, 1.0])) * np.pi
+                cc = complex(float(S.pick(rng, [0.5, 1.0, 2.0])) * np.exp(1j * th))
+                g = general_leaf(rng, n_, dts)
+                g["eigs"] = [{"re": float((complex(e["re"], e["im"]) / cc).real), "im": float((complex(e["re"], e["im"]) / cc).imag)} for e in g["eigs"]]
+                node = {"k": "Scaled", "c": {"re": cc.real, "im": cc.imag}, "side": S.pick(rng, ["l", "r"]), "arg": g}
         n = R.shape_of(node)[0]
         if hermitian:
             alg = S.pick(rng, ["omitted", "Auto", "Eigh", "Eig", "Lanczos", "Lanczos", "Arnoldi"])
+            if scaled and node["k"] != "Annot":
+                alg = S.pick(rng, ["omitted", "Auto", "Eig", "Arnoldi"])
             if indefinite:
                 alg = S.pick(rng, ["Eigh", "Eigh", "Eig", "omitted", "Auto", "Lanczos", "Arnoldi"])
             if directed:
@@ -144,8 +169,12 @@ def gen(tier, rng, shard, nshards):
         iters = S.pick(rng, ["n", "n+3", "default"])
         case = {"spec": node, "fn": fn, "alg": alg, "iters": iters, "cols": int(S.pick(rng, [0, 1, 3])), "seed": S.seed(rng),
                 "hermitian": hermitian}
+        if scaled:
+            case["scaled"] = True
         if fn == "pow":
             case["a"] = S.pick(rng, POWERS) if not indefinite else S.pick(rng, [2, 3, 10, -2, 9])
+            if scaled:
+                case["a"] = S.pick(rng, [0.5, -0.5, 2.5, 1.5, 0.5, 3, -2])
             if case["a"] == -1:
                 # power -1 is delegated to inv(): Lanczos -> CG and Eigh -> Cholesky, which refuse operators that are not
                 # *declared* PSD.  The matrices here are positive definite: declare them so (admissible algorithm object).
@@ -288,6 +317,8 @@ def run_case(ctx, case):
     for k in set(R.kinds(node)):
         ctx.count("kind", k)
     ctx.count("fn", case["fn"] + (f"({case['a']})" if "a" in case else ""))
+    if case.get("scaled"):
+        ctx.count("scaled_factor_outside_domain", case["fn"] + (f"({case['a']})" if "a" in case else "") + (":hermitian" if case["hermitian"] else ":general"))
     ctx.count("alg", f"{case['alg']}:{case['iters']}" if case["alg"] in ("Lanczos", "Arnoldi") else case["alg"])
     before = dict(DISPATCH.rules)
     results = evaluate(ctx, node, case)
